@@ -108,3 +108,83 @@ Fixpoint insert_sorted (x : Z) (l : list Z) : list Z :=
   end.
 (** a list as a set: sorted, duplicate-free *)
 Definition as_set (l : list Z) : list Z := fold_right insert_sorted [] l.
+
+(* ------------------------------------------------------------------ collections and alignments *)
+
+(** a collection is translated row by row; the request fails as a whole when one row is rejected;
+    order and number of rows are those of the input *)
+Fixpoint all_or_none {A} (l : list (option A)) : option (list A) :=
+  match l with
+  | [] => Some []
+  | None :: _ => None
+  | Some a :: r => match all_or_none r with Some r' => Some (a :: r') | None => None end
+  end.
+Definition collection_spec (tbl : list Z) (trim include_stop incomplete_ok : bool) (seqs : list (list Z))
+  : option (list (list Z)) :=
+  all_or_none (map (stop_spec tbl trim include_stop incomplete_ok) seqs).
+
+(** alignment rows as lists of aligned triplets: a codon of bases or the gap triplet "---" *)
+Definition gap_triplet : list Z := [45; 45; 45].
+Definition is_gap_triplet (w : list Z) : bool :=
+  match w with [a; b; c] => (a =? 45) && (b =? 45) && (c =? 45) | _ => false end.
+Definition triplet_ok (w : list Z) : Prop :=
+  w = gap_triplet \/ exists a b c, w = [a; b; c] /\ canonical a /\ canonical b /\ canonical c.
+(** the residue a triplet translates to: "-" for the gap triplet *)
+Definition triplet_aa (tbl : list Z) (w : list Z) : Z := if is_gap_triplet w then 45 else spec_lookup tbl w.
+Definition is_stop_triplet (tbl : list Z) (w : list Z) : bool :=
+  negb (is_gap_triplet w) && (spec_lookup tbl w =? star).
+(** trimming in an alignment keeps the row length: the LAST residue codon of a row, if it is a stop
+    codon, becomes the gap triplet *)
+Fixpoint trim_row (tbl : list Z) (ws : list (list Z)) : list (list Z) :=
+  match ws with
+  | [] => []
+  | w :: r => if forallb is_gap_triplet r && is_stop_triplet tbl w then gap_triplet :: r else w :: trim_row tbl r
+  end.
+Definition aln_row_spec (tbl : list Z) (trim include_stop : bool) (ws : list (list Z)) : option (list Z) :=
+  let p := map (triplet_aa tbl) (if trim then trim_row tbl ws else ws) in
+  if negb include_stop && has_stop p then None else Some p.
+Definition alignment_spec (tbl : list Z) (trim include_stop : bool) (rows : list (list (list Z)))
+  : option (list (list Z)) :=
+  all_or_none (map (aln_row_spec tbl trim include_stop) rows).
+(** the residues of a row: its non-gap triplets, concatenated *)
+Definition row_residues (ws : list (list Z)) : list Z := concat (filter (fun w => negb (is_gap_triplet w)) ws).
+
+(* ------------------------------------------------------------------ degenerate codons *)
+
+(** the IUPAC amino-acid ambiguity codes: B = {D, N}, Z = {E, Q}, X = any other set of several
+    residues (with "*" among them when stop codons are allowed) *)
+Definition aa_symbol_of_set (set : list Z) : Z :=
+  match set with
+  | [x] => x
+  | [68; 78] => 66
+  | [69; 81] => 90
+  | _ => 88
+  end.
+Fixpoint iupac_lookup (c : Z) (l : list (Z * list Z)) : option (list Z) :=
+  match l with [] => None | (k, v) :: r => if k =? c then Some v else iupac_lookup c r end.
+Fixpoint symbol_sets (w : list Z) : option (list (list Z)) :=
+  match w with
+  | [] => Some []
+  | c :: r => match iupac_lookup c iupac_dna, symbol_sets r with
+              | Some s, Some t => Some (s :: t)
+              | _, _ => None
+              end
+  end.
+Fixpoint words_of (sets : list (list Z)) : list (list Z) :=
+  match sets with
+  | [] => [[]]
+  | s :: r => flat_map (fun c => map (cons c) (words_of r)) s
+  end.
+(** what a codon of IUPAC nucleotide symbols translates to (old-style Sequence.get_translation):
+    the set of residues of ALL the codons of bases it stands for -- stop codons left out unless
+    they are allowed --, encoded as one amino-acid symbol; rejected when nothing is left *)
+Definition degenerate_codon_spec (tbl : list Z) (include_stop : bool) (w : list Z) : option Z :=
+  match symbol_sets w with
+  | None => None
+  | Some sets =>
+      let residues := as_set (filter (fun x => include_stop || negb (x =? star))
+                                     (map (spec_lookup tbl) (words_of sets))) in
+      match residues with [] => None | _ => Some (aa_symbol_of_set residues) end
+  end.
+(** a triplet holding "-" next to nucleotide symbols: "?" if incomplete codons are accepted *)
+Definition partial_gap_spec (incomplete_ok : bool) : option Z := if incomplete_ok then Some 63 else None.
